@@ -19,7 +19,7 @@ RATIOS = [(1, 1), (1, 2), (1, 3), (1, 4), (1, 5), (5, 1), (2, 1), (3, 1), (2, 3)
 
 def plan(tier, seed, scale):
     q = tier == "quick"
-    return {"n_cases": int((1500 if q else 40000) * scale), "remote_every": 300 if q else 400,
+    return {"n_cases": int((1500 if q else 40000) * scale), "remote_every": 50 if q else 40,
             "timeout_s": 900 if q else 10800}
 
 
@@ -158,6 +158,44 @@ def run_slice(job: dict) -> dict:
             res["samples"].append({"sims": [f"{s['sid']}:{s['type']}:{s['beh'].get('sizes')}" for s in scn["sims"]],
                                    "until": scn["until"], "policy": sched["policy"], "first_writes": writes,
                                    "A_inputs_first_steps": [(st["time"], st["inputs"]) for st in a.steps["A"][:4]]})
+    # ---- the same over real processes: set_data/get_data travel over the socket -------------------
+    from ..remotelab import merged_trace, run_remote
+    n_remote = job["n_cases"] // job["remote_every"]
+    for j in range(w, n_remote, W):
+        rng = random.Random(H(seed, "c16r", j))
+        unauth = ["", "", "", "no_conn", "plain_conn"][j % 5]
+        scn = mk_scn(rng, unauth)
+        scn["until"] = min(scn["until"], 6)
+        rt = run_remote(scn, max_sleep=0.003, sleep_seed=j)
+        res["evaluations"] += 1
+        C["remote_runs"] += 1
+        if rt["outcome"]["kind"] == "watchdog":
+            C["remote_watchdog_inconclusive"] += 1
+            continue
+        tr = merged_trace(rt)
+        a = Analysis(scn, tr)
+        C["remote_set_data_expected"] += a.stats.get("set_data_expected", 0)
+        sched = {"policy": "remote"}
+        tr["schedule"] = []
+        if unauth:
+            C["remote_unauthorised_cases"] += 1
+            rets = [e for e in tr["events"] if e.get("op") == "async_ret" and e["sid"] == "U"]
+            if not rets or rets[0].get("ok") or "ScenarioError" not in (rets[0].get("err") or ""):
+                viol({"kind": "unauthorised_request_accepted", "variant": unauth, "transport": "remote",
+                      "reply": rets[:1]}, scn, sched, tr)
+            else:
+                C["remote_unauthorised_refused"] += 1
+            for st in a.steps["A"]:
+                if "U.e0" in str(st["inputs"]):
+                    viol({"kind": "unauthorised_data_delivered", "variant": unauth, "transport": "remote"}, scn, sched, tr)
+                    break
+            continue
+        if rt["outcome"]["kind"] != "ok":
+            viol({"kind": "run_failed", "transport": "remote", "type": rt["outcome"].get("type"),
+                  "msg": rt["outcome"].get("msg", "")[:200]}, scn, sched, tr)
+            continue
+        for v in judge(scn, tr, a):
+            viol(dict(v, transport="remote"), scn, sched, tr)
     res["hashes"] = list(res["hashes"])
     res["counters"] = dict(C)
     return res
@@ -165,7 +203,11 @@ def run_slice(job: dict) -> dict:
 
 def replay(rep: dict) -> List[dict]:
     r = rep["replay"]
-    tr = run_case(r["scn"], dict(r["sched"]))
+    if r["sched"].get("policy") == "remote":
+        from ..remotelab import merged_trace, run_remote
+        tr = merged_trace(run_remote(r["scn"], max_sleep=0.003))
+    else:
+        tr = run_case(r["scn"], dict(r["sched"]))
     a = Analysis(r["scn"], tr)
     out = judge(r["scn"], tr, a)
     out += [dict(x, kind="agent_not_synchronised_" + x["kind"]) for x in a.viol["C01"]]
@@ -204,5 +246,5 @@ def evidence(m, tier, seed):
                 "simulators in flight",
         "exhaustive": False,
         "obligations": m["counters"].get("set_data_expected", 0) + m["counters"].get("c16_order_checks", 0),
-    }, "assumptions": ["in-process transport with controlled reply order; the content returned by the asynchronous "
+    }, "assumptions": ["in-process transport with controlled reply order plus a sample over real processes (remote_runs: set_data/get_data over the socket, events merged by the monotonic clock); the content returned by the asynchronous "
                        "get_data is recorded but not part of the property"]}
